@@ -1051,7 +1051,13 @@ class StreamSummary(StreamResult):
         if "reason" not in case._details:
             reason = "Unknown"
         else:
-            reason = case._details["reason"].as_text()
+            content = case._details["reason"]
+            try:
+                reason = content.as_text()
+            except ValueError:
+                # Not a text attachment, or not decodable: record the skip
+                # with the raw bytes rather than failing to record it.
+                reason = repr(b"".join(content.iter_bytes()))
         self.skipped.append((case, reason))
 
     def _exists(self, case):
